@@ -2,6 +2,7 @@
 import re
 from rules.common import (opmap, PredTrue, where, flat_atoms, all_origins, exact_origins, ops_of, show, origin_match, field_val)
 from base import CutPolicy
+from rules.common import rel, rel_sign, om, find_rel
 from absint import EMPTY, V, vfield, tagvals, const_of
 
 EXPLANATION = ("static analysis (MIR abstract interpretation): Claim and the Rewards query obtain the amount from the same function with "
@@ -81,12 +82,10 @@ def run(W, chk):
     m = opmap(until)
     want = {"farm.preliminary_end_epoch": frozenset(["sub", "sub:l"]), "Const(1_u64)": frozenset(["sub", "sub:r"]), "current_epoch_id": frozenset()}
     chk.expect(m == want, "PROV-emission-window", "until", "emissions until min(until, end - 1)", "emission window end <- %s" % {k: sorted(v) for k, v in m.items()}, E.entry)
-    gl = [e for e in E.switches() if any(isinstance(a[0], tuple) and a[0][1] == "le" and exact_origins(a[0][2]) == {"farm.preliminary_end_epoch"}
-                                         and exact_origins(a[0][3]) == {"current_epoch_id"} for a in e.vals[0].atoms)]
+    gl = find_rel(E.switches(), om(r"^farm\.preliminary_end_epoch$"), "<=", om(r"^current_epoch_id$"))
     chk.expect(bool(gl), "PROV-emission-window", "guard", "chooses end-1 when end <= until", "comparison `preliminary_end_epoch <= until` not found", E.entry)
     em = vfield(vfield(E.ret, "0"), "[*]") if E.ret is not None else EMPTY
     chk.expect(exact_origins(em) == {"farm.emission_rate"}, "PROV-emission-window", "rate", "constant emission_rate per epoch", "per-epoch emission <- %s" % show(em), E.entry)
-    sk = [e for e in T.switches() if e.fn.endswith("calculate_rewards") and any(
-        isinstance(a[0], tuple) and a[0][1] == "gt" and exact_origins(a[0][2]) == {"Store(FARMS).start_epoch"} for a in e.vals[0].atoms)]
+    sk = find_rel(T.switches(), om(r"^Store\(FARMS\)\.start_epoch$"), ">", lambda v: True)
     chk.expect(len(sk) >= 2, "CUT-farm-not-started", "calculate_rewards", "epochs before farm.start_epoch are skipped (2 comparisons)",
                "start_epoch comparisons found: %d" % len(sk), W.F.get(fid).span)
